@@ -18,6 +18,7 @@ import (
 	pb_blobstore "github.com/buildbarn/bb-storage/pkg/proto/configuration/blobstore"
 	"github.com/buildbarn/bb-storage/pkg/blobstore/replication"
 	"github.com/buildbarn/bb-storage/pkg/blobstore/slicing"
+	"github.com/buildbarn/bb-storage/pkg/clock"
 	"github.com/buildbarn/bb-storage/pkg/digest"
 	"github.com/buildbarn/bb-storage/pkg/eviction"
 	"vsim/sim"
@@ -236,6 +237,7 @@ func c17Composite(fallback bool) func(c *sim.RunCtx) {
 
 // recordingReplicator observes the base replicator under a decorator.
 type recordingReplicator struct {
+	kf      digest.KeyFormat
 	base     replication.BlobReplicator
 	c        *sim.RunCtx
 	inFlight int
@@ -269,14 +271,14 @@ func (r *recordingReplicator) leave(keys []string) {
 }
 
 func (r *recordingReplicator) ReplicateSingle(ctx context.Context, d digest.Digest) buffer.Buffer {
-	k := []string{d.GetKey(digest.KeyWithoutInstance)}
+	k := []string{d.GetKey(r.kf)}
 	r.enter(k)
 	defer r.leave(k)
 	return r.base.ReplicateSingle(ctx, d)
 }
 
 func (r *recordingReplicator) ReplicateComposite(ctx context.Context, parentDigest, childDigest digest.Digest, slicer slicing.BlobSlicer) buffer.Buffer {
-	k := []string{parentDigest.GetKey(digest.KeyWithoutInstance)}
+	k := []string{parentDigest.GetKey(r.kf)}
 	r.enter(k)
 	defer r.leave(k)
 	return r.base.ReplicateComposite(ctx, parentDigest, childDigest, slicer)
@@ -285,7 +287,7 @@ func (r *recordingReplicator) ReplicateComposite(ctx context.Context, parentDige
 func (r *recordingReplicator) ReplicateMultiple(ctx context.Context, digests digest.Set) error {
 	var k []string
 	for _, d := range digests.Items() {
-		k = append(k, d.GetKey(digest.KeyWithoutInstance))
+		k = append(k, d.GetKey(r.kf))
 	}
 	r.enter(k)
 	defer r.leave(k)
@@ -296,6 +298,20 @@ func (r *recordingReplicator) ReplicateMultiple(ctx context.Context, digests dig
 func c17Replicators(c *sim.RunCtx) {
 	t := c.T.Plan
 	objs := drawSimpleObjs(t, 2+t.Choose(4), "")
+	// instance-aware sinks in a third of the runs, with twins: the same
+	// content under another instance name is another object to such a sink
+	kf := digest.KeyWithoutInstance
+	if t.Chance(1, 3) {
+		kf = digest.KeyWithInstance
+		for i, n := 0, len(objs); i < n; i++ {
+			if t.Chance(1, 2) {
+				objs = append(objs, simpleObj{objs[i].Data, RefDigest("x", remoteexecution.DigestFunction_SHA256, objs[i].Data)})
+			}
+		}
+	}
+	// a third of the runs: the decorator stack is assembled by
+	// NewBlobReplicatorFromConfiguration (sink key format taken from the sink's BlobAccessInfo)
+	configured := t.Chance(1, 3)
 	strategy := []int{rsDedup, rsLimiting, rsQueued}[t.Choose(3)]
 	limit := int64(1 + t.Choose(3))
 	callers := 2 + t.Choose(5)
@@ -330,13 +346,13 @@ func c17Replicators(c *sim.RunCtx) {
 	for i := range inSource {
 		inSource[i] = t.Chance(4, 5)
 	}
-	desc := fmt.Sprintf("replicator=%s limit=%d callers=%d faultRate=%d cancelRate=%d inSource=%v", replStrategyNames[strategy], limit, callers, faultRate, cancelRate, inSource)
+	desc := fmt.Sprintf("replicator=%s limit=%d callers=%d faultRate=%d cancelRate=%d inSource=%v keyformat=%v configured=%v", replStrategyNames[strategy], limit, callers, faultRate, cancelRate, inSource, kf, configured)
 	c.Sample["case"] = desc
 	c.Note("case %s plans=%v", desc, plans)
 	injected, cancelled := 0, 0
 	c.Sim(sim.SimOpts{MaxSteps: 300000, DeadlockClass: "deadlock"}, func(s *rt.Sched) {
-		source := newModelStore(c, "source", digest.KeyWithoutInstance)
-		sink := newModelStore(c, "sink", digest.KeyWithoutInstance)
+		source := newModelStore(c, "source", kf)
+		sink := newModelStore(c, "sink", kf)
 		for i, in := range inSource {
 			if in {
 				source.Objs[source.key(objs[i].D)] = objs[i].Data
@@ -352,18 +368,30 @@ func c17Replicators(c *sim.RunCtx) {
 		}
 		source.Fault, sink.Fault = fault, fault
 		clk := sim.NewClock(s)
-		rec := &recordingReplicator{base: replication.NewLocalBlobReplicator(source, sink), c: c, perKey: map[string]int{}}
+		rec := &recordingReplicator{base: replication.NewLocalBlobReplicator(source, sink), c: c, perKey: map[string]int{}, kf: kf}
 		var r replication.BlobReplicator
 		expectLimit := int(limit)
 		switch strategy {
 		case rsDedup:
-			r = replication.NewDeduplicatingBlobReplicator(rec, sink, digest.KeyWithoutInstance)
+			r = replication.NewDeduplicatingBlobReplicator(rec, sink, kf)
 			expectLimit = 1 << 30
 		case rsLimiting:
 			r = replication.NewConcurrencyLimitingBlobReplicator(rec, sink, semaphore.NewWeighted(limit))
 		case rsQueued:
-			r = replication.NewQueuedBlobReplicator(source, rec, digest.NewExistenceCache(clk, digest.KeyWithoutInstance, 1+t.Choose(3), time.Duration(1+t.Choose(10))*time.Second, eviction.NewLRUSet[string]()))
+			r = replication.NewQueuedBlobReplicator(source, rec, digest.NewExistenceCache(clk, kf, 1+t.Choose(3), time.Duration(1+t.Choose(10))*time.Second, eviction.NewLRUSet[string]()))
 			expectLimit = 1
+		}
+		if configured {
+			oldClock := clock.SystemClock
+			clock.SystemClock = clk
+			defer func() { clock.SystemClock = oldClock }()
+			var err error
+			r, err = configuration.NewBlobReplicatorFromConfiguration(newSimGroup(s, 0), replicatorConfig(strategy, limit), source,
+				configuration.BlobAccessInfo{BlobAccess: sink, DigestKeyFormat: kf}, configuration.NewCASBlobReplicatorCreator(nil))
+			if err != nil {
+				panic(sim.HarnessError{Msg: "NewBlobReplicatorFromConfiguration: " + err.Error()})
+			}
+			c.Count("probe_replicator_from_configuration", 1)
 		}
 		done := 0
 		for ci := range plans {
@@ -430,6 +458,15 @@ func c17Replicators(c *sim.RunCtx) {
 			})
 		}
 		s.WaitUntil("callers", func() bool { return done == len(plans) })
+		if configured {
+			// observed at the sink instead of at a recording base replicator
+			if sink.PutOverlap != "" && strategy == rsDedup {
+				c.Fail("concurrent-copies-of-same-object", "the deduplicating replicator ran two copies of %s into the sink concurrently [%s]", sink.PutOverlap, desc)
+			}
+			if sink.MaxInFlight["Put"] > expectLimit {
+				c.Fail("too-many-concurrent-copies", "%s ran %d Puts into the sink concurrently, limit %d [%s]", replStrategyNames[strategy], sink.MaxInFlight["Put"], expectLimit, desc)
+			}
+		}
 		if rec.overlap != "" && strategy == rsDedup {
 			c.Fail("concurrent-copies-of-same-object", "the deduplicating replicator ran two base replications of %s concurrently [%s]", rec.overlap, desc)
 		}
